@@ -265,7 +265,10 @@ func (b *Bundle) SourceForLocalPath(p string) (sourceaddrs.FinalSource, error) {
 		if found {
 			// We've found multiple possible source addresses, so we
 			// need to decide which one to keep.
-			if len(candidateAddr.String()) > len(pkgAddr.String()) {
+			// Ties between equally long addresses are broken by their text,
+			// since map iteration order would otherwise decide.
+			candidateStr, currentStr := candidateAddr.String(), pkgAddr.String()
+			if len(candidateStr) > len(currentStr) || (len(candidateStr) == len(currentStr) && candidateStr >= currentStr) {
 				continue
 			}
 		}
